@@ -820,22 +820,43 @@ fn repo_dir() -> String {
 
 /// the arms of the `match` that starts on the first line containing `open` after the first line
 /// containing `after`: lines indented exactly `indent` spaces that start a pattern
-fn match_arms(src: &str, after: &str, open: &str, indent: usize) -> Option<Vec<String>> {
-    let lines: Vec<&str> = src.lines().collect();
-    let a = lines.iter().position(|l| l.contains(after))?;
-    let o = a + lines[a..].iter().position(|l| l.contains(open))?;
-    let pad = " ".repeat(indent);
-    let close = format!("{}}}", " ".repeat(indent - 4));
+fn indent_of(l: &str) -> usize {
+    l.len() - l.trim_start().len()
+}
+
+/// index of the first line for which `is_start` holds and that is followed, within three lines, by a
+/// line containing `open` — the `match` that belongs to that block
+fn find_block(lines: &[&str], is_start: &dyn Fn(&str) -> bool, open: &str) -> Option<usize> {
+    (0..lines.len()).find(|&i| is_start(lines[i]) && lines[i..(i + 4).min(lines.len())].iter().any(|l| l.contains(open)))
+}
+
+/// the arm heads of the `match` opened on the first line at or after `from` that contains `open`.
+/// Layout-agnostic apart from rustfmt's one-arm-head-per-line: the arms are the lines at the
+/// indentation of the first code line after the `match`, the match ends at the first line that is
+/// indented no deeper than the `match` line itself.  Re-indenting, moving the block into a helper,
+/// re-ordering arms, comments and blank lines do not disturb it.
+fn match_arms_at(lines: &[&str], from: usize, open: &str) -> Option<Vec<String>> {
+    let o = from + lines[from..].iter().position(|l| l.contains(open))?;
+    let mi = indent_of(lines[o]);
+    let mut ai: Option<usize> = None;
     let mut arms = Vec::new();
     for l in &lines[o + 1..] {
-        if l.starts_with(&close) && !l.starts_with(&pad) {
-            return Some(arms);
+        if l.trim().is_empty() {
+            continue;
         }
-        if l.starts_with(&pad) && !l[indent..].starts_with(' ') {
-            let t = &l[indent..];
-            if t.starts_with("//") || t.starts_with('}') || t.starts_with(')') {
-                continue;
-            }
+        let ind = indent_of(l);
+        if ind <= mi {
+            return if l.trim_start().starts_with('}') { Some(arms) } else { None };
+        }
+        let t = l.trim_start();
+        if t.starts_with("//") {
+            continue;
+        }
+        let a = *ai.get_or_insert(ind);
+        if ind != a || t.starts_with('}') || t.starts_with(')') || t.starts_with('|') {
+            continue;
+        }
+        {
             // pattern head: up to the first of ` {`, `(`, ` =>`, ` if`
             let mut head: String = t.split("=>").next().unwrap_or(t).trim().to_string();
             if let Some(i) = head.find(" if ") {
@@ -914,12 +935,21 @@ pub fn source_scan(out: &mut Out) {
         report.insert(what.to_string(), serde_json::Value::Object(rows));
     };
     let conn = std::fs::read_to_string(format!("{}/src/production/connection_optimized.rs", repo)).unwrap_or_default();
+    let conn_lines: Vec<&str> = conn.lines().collect();
+    // the transaction block of the handler: the `if self.in_transaction {` whose body is a `match` on
+    // the parsed command (whatever the result is bound to, however deep it is indented)
+    let txn_if = find_block(&conn_lines, &|l: &str| l.contains("if self.in_transaction {") && !l.contains("&&"), "match ");
+    // … and its `else`: the first `} else {` at the indentation of that `if` line
+    let txn_else = txn_if.and_then(|i| {
+        let ind = indent_of(conn_lines[i]);
+        (i + 1..conn_lines.len()).find(|&j| indent_of(conn_lines[j]) == ind && conn_lines[j].trim_start().starts_with("} else {"))
+    });
     let acl = ["Command::Auth", "Command::AclWhoami", "Command::AclList", "Command::AclUsers", "Command::AclGetUser", "Command::AclSetUser", "Command::AclDelUser", "Command::AclCat", "Command::AclGenPass", "Command::AclDryrun", "Command::AclLog", "Command::AclLogReset"];
     // 1. inside MULTI
     check(
         out,
         "connection-handler:in-transaction-arms",
-        match_arms(&conn, "let response = if self.in_transaction {", "match &cmd {", 28),
+        txn_if.and_then(|i| match_arms_at(&conn_lines, i, "match ")),
         &["Command::Exec", "Command::Discard", "Command::Multi", "Command::Watch", "Command::Unknown if …", "Command::Unknown", "_"],
         &[
             ("Command::Exec", "model Input.exec (3 branches: EXECABORT / nil / results): table cells EXEC × every state, random sessions, concurrent schedules"),
@@ -936,22 +966,7 @@ pub fn source_scan(out: &mut Out) {
     outside.extend(acl.iter());
     outside.push("Command::Unknown if …");
     outside.push("_");
-    // the outside block is the `else` of the same `if`: its match is the SECOND `match &cmd {`
-    let second = conn.find("let response = if self.in_transaction {").and_then(|i| conn[i..].find("} else {").map(|j| i + j));
-    let outside_found = second.and_then(|i| {
-        let line_start = conn[..i].rfind('\n').map(|x| x + 1).unwrap_or(0);
-        // find the `} else {` at indentation 20 that closes the in-transaction block
-        let mut pos = line_start;
-        let mut found = None;
-        for l in conn[line_start..].lines() {
-            if l == format!("{}}} else {{", " ".repeat(20)) {
-                found = Some(pos);
-                break;
-            }
-            pos += l.len() + 1;
-        }
-        found.and_then(|p| match_arms(&conn[p..], "} else {", "match &cmd {", 28))
-    });
+    let outside_found = txn_else.and_then(|j| match_arms_at(&conn_lines, j, "match "));
     check(
         out,
         "connection-handler:outside-arms",
@@ -963,14 +978,30 @@ pub fn source_scan(out: &mut Out) {
     let mut disp: Vec<&str> = acl.to_vec();
     disp.push("Command::Unknown if …");
     disp.push("_");
-    check(out, "connection-handler:execute_connection_level-arms", match_arms(&conn, "fn execute_connection_level", "Some(match cmd {", 12), &disp, &[("_", "everything else is replayed through ShardedActorState::execute")]);
+    check(out, "connection-handler:execute_connection_level-arms", find_block(&conn_lines, &|l: &str| l.trim_start().starts_with("fn ") && l.contains("-> Option<RespValue>"), "match ").and_then(|i| match_arms_at(&conn_lines, i, "match ")), &disp, &[("_", "everything else is replayed through ShardedActorState::execute")]);
     // 4. stub names
-    let mut stubs = literals_between(&conn, "fn is_stub_command", "fn handle_stub_command");
+    let stub_fn = {
+        // the predicate over command names: the `-> bool` function whose body names "PUBLISH"
+        let starts: Vec<usize> = (0..conn_lines.len()).filter(|&i| conn_lines[i].trim_start().starts_with("fn ") && conn_lines[i].contains("-> bool")).collect();
+        starts.into_iter().find_map(|i| {
+            let ind = indent_of(conn_lines[i]);
+            let end = (i + 1..conn_lines.len()).find(|&j| indent_of(conn_lines[j]) == ind && conn_lines[j].trim_start().starts_with('}'))?;
+            let body = conn_lines[i..=end].join("\n");
+            if body.contains("\"PUBLISH\"") { Some(body) } else { None }
+        })
+    };
+    let mut stubs = stub_fn.as_deref().and_then(|b| literals_between(b, "fn ", "\n}").or_else(|| literals_between(b, "fn ", "}")));
     if let Some(s) = &mut stubs {
         s.retain(|x| !x.is_empty());
     }
     check(out, "connection-handler:stub-names", stubs, &["PUBLISH", "SPUBLISH", "SUBSCRIBE", "SSUBSCRIBE", "PSUBSCRIBE", "UNSUBSCRIBE", "SUNSUBSCRIBE", "PUNSUBSCRIBE", "HELLO", "RESET", "CLIENT ", "CONFIG ", "ACL "], &[]);
-    let mut chans = literals_between(&conn, "// PubSub stubs in MULTI", "self.transaction_errors = true;");
+    let mut chans = match (txn_if, txn_else) {
+        (Some(i), Some(j)) => {
+            let block = conn_lines[i..j].join("\n");
+            block.find("matches!(").and_then(|a| literals_between(&block[a..], "matches!(", ") {"))
+        }
+        _ => None,
+    };
     if let Some(s) = &mut chans {
         s.retain(|x| x.chars().all(|c| c.is_ascii_uppercase()) && !x.is_empty());
     }
@@ -980,12 +1011,18 @@ pub fn source_scan(out: &mut Out) {
     check(
         out,
         "executor:queueing-prologue-arms",
-        match_arms(&exm, "// Handle command queueing when in transaction", "match cmd {", 16),
+        {
+            let exm_lines: Vec<&str> = exm.lines().collect();
+            find_block(&exm_lines, &|l: &str| l.contains("if self.in_transaction {") && !l.contains("&&"), "match ").and_then(|i| match_arms_at(&exm_lines, i, "match "))
+        },
         &["Command::Exec|Command::Discard|Command::Multi", "Command::Watch", "_"],
         &[("_", "XInput.cmd / XInput.unwatch: everything else is queued — executor_variant_sweep queues EVERY Command variant"), ("Command::Watch", "XInput.watch inside MULTI"), ("Command::Exec|Command::Discard|Command::Multi", "fall through to execute_exec / execute_discard / execute_multi")],
     );
     let tops = std::fs::read_to_string(format!("{}/src/redis/executor/transaction_ops.rs", repo)).unwrap_or_default();
-    let fns: Vec<String> = tops.lines().filter_map(|l| l.trim_start().strip_prefix("pub(super) fn ").or_else(|| l.trim_start().strip_prefix("pub fn ")).or_else(|| l.trim_start().strip_prefix("fn "))).map(|r| r.chars().take_while(|c| c.is_alphanumeric() || *c == '_').collect()).collect();
+    // entry points of the executor-level machine: functions the dispatcher can call (pub / pub(super) /
+    // pub(crate)) and that can CHANGE the transaction state (`&mut self`); private helpers and read-only
+    // accessors cannot reach the property
+    let fns: Vec<String> = tops.lines().filter(|l| l.contains("&mut self")).filter_map(|l| l.trim_start().strip_prefix("pub(super) fn ").or_else(|| l.trim_start().strip_prefix("pub fn ")).or_else(|| l.trim_start().strip_prefix("pub(crate) fn "))).map(|r| r.chars().take_while(|c| c.is_alphanumeric() || *c == '_').collect()).collect();
     check(out, "executor:transaction_ops-functions", if fns.is_empty() { None } else { Some(fns) }, &["execute_multi", "execute_exec", "execute_discard", "execute_watch", "execute_unwatch"], &[]);
     // 6. every file of src/ that touches transaction state or dispatches the transaction commands
     let mut files = Vec::new();
@@ -995,7 +1032,10 @@ pub fn source_scan(out: &mut Out) {
     for p in &files {
         let rel = p.strip_prefix(&repo).unwrap_or(p).to_string_lossy().to_string();
         let Ok(text) = std::fs::read_to_string(p) else { continue };
-        if ["Command::Multi", "Command::Exec ", "Command::Exec\n", "Command::Exec,", "Command::Exec)", "Command::Exec |", "in_transaction", "queued_commands", "transaction_queue", "\"MULTI\""].iter().any(|pat| text.contains(pat)) {
+        // a site that can HOLD or DISPATCH a transaction: the state fields, or a match arm on the
+        // transaction commands.  A file that merely names the commands (a parser's keyword, an ACL
+        // category table, a list of command names, documentation) is not a transaction site.
+        if ["in_transaction", "queued_commands", "transaction_queue", "Command::Multi =>", "Command::Exec =>", "Command::Multi |", "Command::Exec |", "| Command::Multi", "| Command::Exec"].iter().any(|pat| text.contains(pat)) {
             touching.push(rel.clone());
         }
         // a command loop: something that parses a frame into a Command and hands it to an executor / state
